@@ -103,12 +103,17 @@ def replay(args):
     names = {k: v for k, v in mito.Mitochondria.SAFE_FUNCTIONS.items()}
     P = mito.MetabolicPathway
     recs, info, selfcheck, specified = [], [], [], 0
-    for line in open(path):
+    # one long-lived engine per shard, as an application would hold it (repaired after every failure so that the ROS latch does not mask
+    # later programs); a second pass over the same programs on the same instance exposes state carried from one evaluation to the next
+    shared = mito.Mitochondria(silent=True)
+    lines = [(1, l) for l in open(path)]
+    lines += [(2, l) for (_, l) in lines]
+    for (pass_no, line) in lines:
         c = json.loads(line)
         v = c["val"]
         if v["t"] == "unspec":
             continue
-        specified += 1
+        specified += 1 if pass_no == 1 else 0
         s = src(c["ast"])
         # ---- spec self-check against CPython
         try:
@@ -128,14 +133,16 @@ def replay(args):
         variants = [s]
         try:
             u = ast.unparse(ast.parse(s, mode="eval"))
-            if u != s:
+            if u != s and pass_no == 1:
                 variants.append(u)
         except Exception:
             pass
         f = feats(c["ast"])
         for text in variants:
-            for pw in (P.GLYCOLYSIS, P.KREBS_CYCLE, None):
-                m = mito.Mitochondria(silent=True)
+            for pw in ((P.GLYCOLYSIS, P.KREBS_CYCLE, None) if pass_no == 1 else (P.GLYCOLYSIS,)):
+                m = shared
+                if m.get_ros_level() > 0:
+                    m.repair(10 ** 6)
                 rec = {"raised": False, "spec": "err" if v["t"] == "err" else "val", "success": False, "agrees": True}
                 try:
                     r = m.metabolize(text, pw)
@@ -158,7 +165,7 @@ def replay(args):
                 except Exception as ex:
                     rec["raised"], rec["exc"] = True, type(ex).__name__
                 recs.append(rec)
-                info.append(("%s pathway=%s %s" % ("%s", "auto" if pw is None else pw.value, f), text))
+                info.append(("%s pathway=%s %s%s" % ("%s", "auto" if pw is None else pw.value, f, "" if pass_no == 1 else " second-pass"), text))
     if selfcheck:
         return {"selfcheck": selfcheck}
     r, pf, dr = flat.judge("Trace_EvalSem", [{k: x[k] for k in ("raised", "spec", "success", "agrees")} for x in recs], tag="c02." + tag, expect_states=len(recs))
